@@ -5,6 +5,8 @@
 // and logs outcome class, exception type, NaN-ness of every output, whether outputs changed.  Built with
 // ASan+UBSan; a sanitizer report aborts the process and the check script records the vector being executed.
 #include <csignal>
+#include <cstring>
+#include <sys/time.h>
 #include "trace.hpp"
 #include <GeographicLib/Geodesic.hpp>
 #include <GeographicLib/GeodesicExact.hpp>
@@ -524,8 +526,14 @@ static void do_gfile(const vector<string>& t) {
   vt::Rec r; r.str("e", "gfile").str("fault", fault).i("param", param).str("out", res).b("finite", fin); r.emit(); fflush(stdout);
 }
 static void on_alarm(int) { _exit(124); }
+// The watchdog counts the CPU time of this process (ITIMER_PROF), so that a loaded machine cannot turn a slow vector
+// into a "hang"; a wall-clock alarm 20 times longer catches a vector that blocks without using the CPU.
+static void arm_watchdog(unsigned wd) {
+  struct itimerval it; memset(&it, 0, sizeof it); it.it_value.tv_sec = wd; setitimer(ITIMER_PROF, &it, nullptr);
+  alarm(20 * wd);
+}
 int main(int argc, char** argv) {
-  signal(SIGALRM, on_alarm);
+  signal(SIGALRM, on_alarm); signal(SIGPROF, on_alarm);
   unsigned wd = getenv("VERIF_WATCHDOG") ? unsigned(atoi(getenv("VERIF_WATCHDOG"))) : 30;
   vt::install_terminate();
   if (argc < 2) { fprintf(stderr, "usage: drv_contract DIR [skip] < vectors\n"); return 2; }
@@ -539,7 +547,7 @@ int main(int argc, char** argv) {
     auto t = vt::split(line); if (t.empty()) continue;
     // announce the vector before executing it, so that a crash is attributable
     fprintf(stderr, "@ %lld %s\n", n, line.c_str()); fflush(stderr);
-    alarm(wd);   // watchdog: a vector that does not return within wd seconds is a hang (exit code 124), attributed to this vector
+    arm_watchdog(wd);   // watchdog: a vector that does not return within wd CPU-seconds is a hang (exit code 124), attributed to this vector
     if (t[0] == "call") do_call(t); else if (t[0] == "str") do_str(t); else if (t[0] == "nn") do_nn(t); else if (t[0] == "mfile") do_mfile(t); else if (t[0] == "gfile") do_gfile(t);
   }
   return 0;
